@@ -242,6 +242,9 @@ def grep_gate() -> list[str]:
     return hits
 
 
+GEN_REPORT: dict = {}
+
+
 def ensure_build() -> tuple[bool, str]:
     """Full .vo build of the development (no -vos/-vok)."""
     BUILD.mkdir(exist_ok=True)
@@ -266,8 +269,45 @@ def ensure_build() -> tuple[bool, str]:
         sp = COQ / "Aoef" / "Schema.v"
         if not sp.exists() or sp.read_text() != txt:
             sp.write_text(txt)
+        # Gen/Source.v is translated from the Python sources on every run (harness/pygen.py)
+        global GEN_REPORT
+        try:
+            from . import pygen as _pygen
+
+            gtxt, GEN_REPORT = _pygen.generate(REPO_SRC)
+            gp = COQ / "Gen" / "Source.v"
+            if not gp.exists() or gp.read_text() != gtxt:
+                gp.write_text(gtxt)
+        except Exception as ex:  # the translator itself failed: keep the last Source.v, say so
+            GEN_REPORT = {"units": {}, "error": f"{type(ex).__name__}: {ex}"}
         rc, out = sh("timeout 3000 make -k -j16", cwd=COQ, timeout=3100)
     return rc == 0, out[-4000:]
+
+
+GEN_UNITS = {  # property -> units of Gen/Source.v its source-level theorems are about
+    "C03": [f"{c}_validate" for c in ("TimeStamp", "TimeInterval", "Point", "LineString", "Polygon", "BoundingBox", "MultiPoint", "MultiLineString", "MultiPolygon")] + ["MAX_FREQUENCY"],
+    "C06": ["compute_affinity_in_time", "TIME_GEOMETRY_TYPES", "BUFFER_GEOMETRY_TYPES"],
+    "C11": ["buffer_timestamp", "buffer_interval", "buffer_bounding_box_geometry", "buffer_geometry", "MAX_FREQUENCY"],
+    "C12": ["intervals_overlap", "have_temporal_overlap", "have_frequency_overlap", "is_in_clip"],
+    "C14": ["segment_clip"],
+}
+
+
+def gen_assumptions(pid: str) -> list[str]:
+    """what the source translator could and could not read, for the evidence file"""
+    units = GEN_UNITS.get(pid)
+    if not units:
+        return []
+    rep = GEN_REPORT.get("units", {})
+    out = []
+    if GEN_REPORT.get("error"):
+        out.append(f"source translator failed ({GEN_REPORT['error']}): Gen/Source.v is the last generated one; the tie is the correspondence alone")
+    done = [u for u in units if rep.get(u) == "translated"]
+    bad = {u: rep.get(u, "not generated") for u in units if rep.get(u) != "translated"}
+    out.append("Gen/Source.v regenerated from /repo/src by harness/pygen.py; translated from source and covered by the Cxx_src_* theorems: " + ", ".join(done))
+    for u, why in bad.items():
+        out.append(f"ADVISORY: {u} could not be read by the translator ({why}); it is defined as the hand-written model, so for it the tie to the code is the correspondence alone")
+    return out
 
 
 def compile_props(pid: str) -> dict:
@@ -535,8 +575,6 @@ def run_check(prop: Prop, tier: str, seed: int) -> int:
     # 1. build + gate ----------------------------------------------------------------
     ok, log = ensure_build()
     gate = grep_gate()
-    if not ok:
-        proof_broken = {"what": "development does not build", "log": log[-2000:]}
     if gate:
         proof_broken = {"what": "forbidden construct in development", "hits": gate[:20]}
 
@@ -544,9 +582,16 @@ def run_check(prop: Prop, tier: str, seed: int) -> int:
     pr = compile_props(pid)
     obligations = len(pr.get("declared", [])) or len(pr.get("theorems", []))
     discharged = len([t for t in pr.get("theorems", []) if set(t["assumptions"]) <= ALLOWED_AXIOMS]) if pr["ok"] else 0
+    build_note = None
+    if not ok:
+        # some file of the development does not compile.  Props/<pid>.v was compiled afresh against the .vo files:
+        # it fails exactly when something it depends on is missing or out of date (Coq checks the digests), so the
+        # failure concerns this property only in that case; otherwise it is recorded in the evidence and no more.
+        failing = sorted(set(re.findall(r"File \"\./([A-Za-z0-9_/]+\.v)\"[^\n]*\n(?:[^\n]*\n)?Error", log)))
+        build_note = {"what": "a file of the development outside this property's dependencies does not build", "files": failing}
     if not pr["ok"] and proof_broken is None:
         proof_broken = {
-            "what": "property theorems do not check",
+            "what": "property theorems do not check" if ok else "development does not build (a file the property theorems depend on)",
             "theorem": pr.get("failing_theorem"),
             "file": pr.get("file"),
             "log": pr.get("log", "")[-1500:],
@@ -753,7 +798,7 @@ def run_check(prop: Prop, tier: str, seed: int) -> int:
             "samples": json.loads(jdump(samples)),
             "coqchk": coqchk_note,
         },
-        "assumptions": prop.ASSUMPTIONS,
+        "assumptions": prop.ASSUMPTIONS + gen_assumptions(pid) + ([f"build: {build_note}"] if build_note else []),
         "wall_s": round(time.time() - t0, 2),
         "violations": violations,
     }
